@@ -265,7 +265,17 @@ fn random_delims(rng: &mut Rng) -> Delimiters {
             _ => char::from_u32(0x80 + rng.below(0x780) as u32).map(|c| c.to_string()).unwrap_or("««".into()),
         }
     };
-    Delimiters { block_start: pick().into(), block_end: pick().into(), variable_start: pick().into(), variable_end: pick().into(), comment_start: pick().into(), comment_end: pick().into() }
+    let mut m: Vec<String> = (0..6).map(|_| pick()).collect();
+    // one set in five has a member of the wrong size (empty, one byte, three or four bytes): set_delimiters is expected
+    // to refuse it, and if it ever accepts one the lexer gets to see it
+    if rng.chance(1, 5) {
+        let bad = *rng.pick(&["", "#", "{", "#»", "{{{", "«»", "日", "😀", "{%-", "\u{0}"]);
+        let i = rng.below(6);
+        m[i] = bad.to_string();
+    }
+    let mut it = m.into_iter();
+    let mut nx = || -> std::borrow::Cow<'static, str> { it.next().unwrap().into() };
+    Delimiters { block_start: nx(), block_end: nx(), variable_start: nx(), variable_end: nx(), comment_start: nx(), comment_end: nx() }
 }
 
 struct Run<'a> {
